@@ -191,3 +191,46 @@ def natural_key(h):
             ctx.oblige('natural_key (one common field): the result is that field name itself: the only left field that occurs on the right',
                        z3.And(inR(v), z3.Exists([p], z3.And(0 <= p, p < lh.len, v == S(z3.Select(lh.arr, p))))))
     h.explore(body)
+
+
+@vc('C06.itercrossjoin', functions=[J + 'itercrossjoin'], props=['C06', 'C03'],
+    assumptions=['T2: itertools.product yields every combination of one row per table, first table slowest (order and count are its contract)',
+                 'data(t) = the rows of t after the header (summary; iterdata is under contract in C14.FlattenView)', 'two tables; no prefix',
+                 'stateless-body rule over the product'])
+def itercrossjoin(h):
+    """crossjoin(a, b): header = both headers side by side; every pair (row of a, row of b) yields exactly one row: the two rows side
+    by side, unchanged -- so len(a) * len(b) rows, a-major."""
+    from pyvc.interp import SrcIter
+
+    def body(ctx):
+        def delta(ls, x, dout):
+            ra, rb = view_seq(x[0]), view_seq(x[1])
+            o = out_row(dout, 0)
+            q = smt.fresh_int('q')
+            ctx.oblige('itercrossjoin: a pair of rows yields one row: the left row followed by the right row, cells unchanged',
+                       z3.And(dout.len == 1, o.len == ra.len + rb.len,
+                              z3.ForAll([q], z3.Implies(z3.And(0 <= q, q < o.len), z3.Select(o.arr, q) == z3.If(q < ra.len, z3.Select(ra.arr, q), z3.Select(rb.arr, q - ra.len))))))
+        it = h.interp(ctx, loops={(J + 'itercrossjoin', 1): LoopSpec(delta=delta, label='pairs of rows')})
+        it.check_pulls = False
+        A, B_ = sym_table(ctx, 'A', nmin=1), sym_table(ctx, 'B', nmin=1)
+        rows_are_sequences(ctx, A); rows_are_sequences(ctx, B_)
+
+        def data_summary(interp, args, kw, node):
+            t = args[0]
+            s = SrcIter(t.rows, t.n, 'data(%s)' % t.name)
+            s.pos = z3.IntVal(1)
+            return s
+        it.summaries['petl.util.base.data'] = data_summary
+        res = run_generator(it, closure_of(it, J + 'itercrossjoin'), [PyList([A, B_], 'list'), False])
+        if res.exc is not None:
+            ctx.oblige('itercrossjoin: never raises', z3.BoolVal(False), res.exc.origin or '')
+            return
+        if getattr(ctx, 'after_loop', None):
+            pre = ctx.pre_loop_out
+            o = out_row(pre, 0)
+            ha, hb = src_row(A, 0), src_row(B_, 0)
+            q = smt.fresh_int('q')
+            ctx.oblige('itercrossjoin: header = the two headers side by side, once; nothing after the last pair',
+                       z3.And(pre.len == 1, o.len == ha.len + hb.len, res.out.len == 0,
+                              z3.ForAll([q], z3.Implies(z3.And(0 <= q, q < o.len), z3.Select(o.arr, q) == z3.If(q < ha.len, z3.Select(ha.arr, q), z3.Select(hb.arr, q - ha.len))))))
+    h.explore(body)
